@@ -57,6 +57,7 @@ def run(ctx):
         ('G-sim-saturate-overbook', 60, 1000, dict(saturate='overbook')),
         ('G-sim-overbook-abandon', 80, 1500, dict(abandon=True)),
         ('G-sim-overbook-branches', 40, 800, dict(branches='overbook')),
+        ('G-sim-overbook-failready', 40, 800, dict(failready='overbook')),
     ])
     out['rule'] = ('whole run_simulator runs with the overbook scheduler, overcommit on, pools small enough that the '
                    'pool-level killer fires repeatedly (three-failure abandonment), DAG pipelines; compared per tick: '
